@@ -267,7 +267,7 @@ def mc(ctx, module, cfg, workers=None, timeout=1500, coverage=True, name=None, e
              "distinct_states": r["states"], "states_generated": r["generated"], "depth": r["depth"],
              "wall_s": round(r["wall"], 1)}
     if expect_violation:
-        hit = any(expect_violation in l for l in r["out"].splitlines() if "violated" in l or "Error:" in l)
+        hit = any(re.search(expect_violation, l) for l in r["out"].splitlines() if "violated" in l or "Error:" in l)
         if r["ok"] or not hit:
             raise ToolError("negative control %s/%s did not produce the expected violation of %s"
                             % (module, entry["config"], expect_violation))
